@@ -245,6 +245,11 @@ def enc_coord(d, v):
     return enc(v)
 
 
+def _same(x, y) -> bool:
+    import numpy as _np
+    return bool(_np.all(_np.asarray(x, dtype=float) == _np.asarray(y, dtype=float)))
+
+
 def run_task(m, c: dict) -> dict:
     T = task_class(m)
     vars_ = c["vars"]
@@ -265,9 +270,20 @@ def run_task(m, c: dict) -> dict:
                 lbs.append(enc(lb[k])); ubs.append(enc(ub[k]))
             else:
                 lbs.append(enc(lb[k])); ubs.append(2 * math.floor(float(ub[k])))
-        r.update({"bounds_raised": not ok and False, "lbs": lbs if ok else [], "ubs": ubs if ok else []})
+        # consistency with the declared variables: the task's bounds are the concatenation of each variable's OWN get_bounds()
+        own_lb, own_ub = [], []
+        for var in task.variables:
+            a, b = var.get_bounds()
+            own_lb.extend(list(a) if var.has_children() else [a])
+            own_ub.extend(list(b) if var.has_children() else [b])
+        try:
+            eq = ok and all(_same(x, y) for x, y in zip(lb, own_lb)) and all(_same(x, y) for x, y in zip(ub, own_ub)) \
+                and len(own_lb) == D and len(own_ub) == D
+        except Exception:
+            eq = False
+        r.update({"bounds_raised": not ok and False, "lbs": lbs if ok else [], "ubs": ubs if ok else [], "bounds_eq_own": bool(eq)})
     except Exception as ex:
-        r.update({"bounds_raised": True, "lbs": [], "ubs": [], "bounds_exception": type(ex).__name__})
+        r.update({"bounds_raised": True, "lbs": [], "ubs": [], "bounds_eq_own": False, "bounds_exception": type(ex).__name__})
     # random solution
     e = seeded(task.empty_solution, 7)
     r["empty_len"] = len(e)
